@@ -19,9 +19,12 @@ for d in sorted(glob.glob(os.path.join(V, "seeded", "*", "meta.json"))):
                 need = cand[:260]
                 break
     kills = "; ".join(f"{p}: {v['verdict']}" + (f" ({', '.join(v['subchecks'])})" if v.get("subchecks") else "") for p, v in m.get("checks", {}).items())
+    if m.get("note"):
+        need = "[" + m["note"] + "] " + need
     rows.append((name, "yes" if m.get("repo_tests_ok") else "NO", "yes" if m.get("demo_ok") else "NO", kills, need))
 with open(os.path.join(V, "notes", "seeded_table.md"), "w") as f:
     f.write("| seeded change | repo tests pass | demo discriminates | checks (quick tier) | what it needs |\n|---|---|---|---|---|\n")
     for r in rows:
         f.write("| " + " | ".join(x.replace("|", "/") for x in r) + " |\n")
-print(len(rows), "seeded changes;", sum(1 for r in rows if "KILLED" in r[3].split(";")[0]), "killed by the check of their own property")
+print(len(rows), "seeded changes;", sum(1 for r in rows if "KILLED" in r[3].split(";")[0]), "killed by the check of their own property;",
+      sum(1 for r in rows if r[2] == "NO"), "no longer discriminated by their own demo on the current tree (made harmless by a later fix: see their note)")
